@@ -3,31 +3,52 @@
 // Contracts for govc (contract-based deductive verification); comments only.
 package resource_info
 
-// GPU share contributed by MIG instances of a Resource: a fold over the scalar
-// resources that parses MIG profile names (ExtractGpuAndMemoryFromMigResourceName).
-// Kept abstract: a non-negative function of the object.
-//@ declare migGpus(r *Resource) real
+//@ import cires "github.com/NVIDIA/KAI-scheduler/pkg/scheduler/api/common_info/resources"
+
+// v1.ResourceName.String() is `return string(rn)` (library method, no body in the loaded program).
+//@ func (k8s.io/api/core/v1.ResourceName).String
+//@   trusted
+//@   note library method `func (rn ResourceName) String() string { return string(rn) }`: the conversion is the identity on the string
+//@   pure
+//@   ensures result == string(rn)
+//@ end
+
+// GPU share of one map entry (name -> instance count) when the name is a well-formed MIG profile name:
+// (GPU slices named by the profile) x (instances). cires.migNameOK/migNameGpus name the verdict and the number of
+// the regular-expression parser (assumed deterministic, see that package's contract file).
+//@ define migEntry(name v1.ResourceName, n int64) real = ite(cires.migNameOK(string(name)), real(cires.migNameGpus(string(name))) * real(n), 0.0)
+// C08/C07 "GPU quantities": GPU share contributed by MIG instances of a Resource = the SUM over its scalar resources
+// that are MIG profiles ("nvidia.com/mig-" prefix) of slices x instances.  (Was an abstract `declare` with the fold
+// trusted; now a finite sum proved against the loop.)
+//@ define migGpus(r *Resource) real = sum k in r.scalarResources :: ite(IsMigResource(k), migEntry(k, r.scalarResources[k]), 0.0)
 
 //@ func (*Resource).GetTotalGPURequest
 //@   props C07 C08
-//@   trusted
-//@   note assumed contract: total = whole GPUs + MIG share; the MIG fold (string parsing of profile names) is not verified
 //@   requires r != nil
 //@   pure
-//@   ensures result == r.gpus + migGpus(r)
+//@   loop 1
+//@     invariant forall k in visited :: k in r.scalarResources
+//@     invariant totalGpusQuota == sum k in visited :: ite(IsMigResource(k), migEntry(k, r.scalarResources[k]), 0.0)
+//@   ensures [total] result == r.gpus + migGpus(r)
 //@ end
 
-// Total GPU quota of a request (whole + fractional GPUs, DRA claim counts, MIG share): two map folds
-// (one parsing MIG profile names). Kept abstract; name `gpusQuota` is used by other packages (C08).
-//@ declare gpusQuota(g *GpuResourceRequirement) real
+// Total GPU quota of a request = MIG share (sum over migResources of slices x instances) + DRA claim counts (sum over
+// draGpuCounts) + whole/fractional GPUs (portion x devices, 2-decimal fixed point).  The name `gpusQuota` is used by
+// other packages (C08).
+//@ define migQuota(g *GpuResourceRequirement) real = sum k in g.migResources :: migEntry(k, g.migResources[k])
+//@ define gpusQuota(g *GpuResourceRequirement) real = migQuota(g) + real(draSum(g.draGpuCounts)) + getExtendedResourceGpus(g.portion, g.count)
 
 //@ func (*GpuResourceRequirement).GetGpusQuota
 //@   props C08 C14
-//@   trusted
-//@   note assumed: quota = MIG share + DRA counts + extended-resource GPUs; the two map folds are not verified
 //@   requires g != nil
 //@   pure
-//@   ensures result == gpusQuota(g)
+//@   loop 1
+//@     invariant forall k in visited :: k in g.migResources
+//@     invariant totalGpusQuota == sum k in visited :: migEntry(k, g.migResources[k])
+//@   loop 2
+//@     invariant forall k in visited :: k in g.draGpuCounts
+//@     invariant totalGpusQuota == migQuota(g) + real(sum k in visited :: g.draGpuCounts[k])
+//@   ensures [quota] result == gpusQuota(g)
 //@ end
 
 // ---- BaseResource -----------------------------------------------------------
@@ -220,20 +241,19 @@ package resource_info
 //@   ensures result == isFractional(g)
 //@ end
 
-// Number of GPUs requested through DRA claims: a fold (sum) over the map draGpuCounts. No sum theory in the spec
-// language: the sum is a ghost attribute of the MAP object (havocked by unknown code like a field; a new map has an
-// unconstrained sum; the only in-place writer of such a map in the repo is GpuResourceRequirement.SetMaxResource,
-// which has no contract = havoc).
-//@ ghost draSum(m map[string]int64) int
+// Number of GPUs requested through DRA claims = the SUM of the per-claim counts in the map draGpuCounts (was a ghost
+// attribute of the map with the fold trusted; now a finite sum proved against the loop).
+//@ define draSum(m map[string]int64) int = sum k in m :: m[k]
 
 //@ func (*GpuResourceRequirement).GetDraGpusCount
 //@   props C01 C14
-//@   trusted
-//@   note assumed: the sum over the map draGpuCounts is the ghost attribute draSum of that map (no sum theory in the spec language); exact 0 for an empty map is stated
 //@   requires g != nil
 //@   pure
-//@   ensures result == draSum(g.draGpuCounts)
-//@   ensures (forall k string :: !(k in g.draGpuCounts)) ==> result == 0
+//@   loop 1
+//@     invariant forall k in visited :: k in g.draGpuCounts
+//@     invariant count == sum k in visited :: g.draGpuCounts[k]
+//@   ensures [sumOfClaims] result == draSum(g.draGpuCounts)
+//@   ensures [emptyIsZero] (forall k string :: !(k in g.draGpuCounts)) ==> result == 0
 //@ end
 
 //@ func (*GpuResourceRequirement).SetDraGpus
@@ -519,7 +539,7 @@ package resource_info
 //@ func (*GpuResourceRequirement).SetMaxResource
 //@   props C10 C19
 //@   requires g != nil && gg != nil && g.draGpuCounts != nil && g.migResources != nil && g.draGpuCounts != gg.draGpuCounts && g.migResources != gg.migResources
-//@   modifies g.count, g.portion, g.draGpuCounts[*], g.migResources[*], draSum(g.draGpuCounts)
+//@   modifies g.count, g.portion, g.draGpuCounts[*], g.migResources[*]
 //@   loop 1
 //@     invariant true
 //@   loop 2
@@ -529,7 +549,7 @@ package resource_info
 //@ func (*ResourceRequirements).SetMaxResource
 //@   props C10 C19
 //@   requires r != nil && rr != nil ==> r.draGpuCounts != nil && r.migResources != nil && r.draGpuCounts != rr.draGpuCounts && r.migResources != rr.migResources && (r.scalarResources != rr.scalarResources || r.scalarResources == nil)
-//@   modifies r.milliCpu, r.memory, r.scalarResources, r.scalarResources[*], r.count, r.portion, r.draGpuCounts[*], r.migResources[*], draSum(r.draGpuCounts)
+//@   modifies r.milliCpu, r.memory, r.scalarResources, r.scalarResources[*], r.count, r.portion, r.draGpuCounts[*], r.migResources[*]
 //@   ensures r != nil && rr != nil ==> r.milliCpu == max(old(r.milliCpu), rr.milliCpu) && r.memory == max(old(r.memory), rr.memory) && r.scalarResources != nil
 //@   ensures [mapKept] r != nil && rr != nil ==> ite(old(r.scalarResources) != nil, r.scalarResources == old(r.scalarResources), fresh(r.scalarResources))
 //@ end
